@@ -65,6 +65,23 @@ def streams(tier, seed):
                 ops.append(proc_step(rng, cur, o, dims, a))
             cur = o
         out.append(ops)
+    # the SAME step applied two and three times in a row (same function, same axis argument): every application appends
+    for nd in (3, 4):
+        for f in ("sum", "max", "mean"):
+            for ax in (0, -1):
+                a = new_op(rng, 0, ndim=nd, hist=rng.choice([0, 2]), cplx=False, kinds=["asc"] * 4)
+                out.append([a] + [{"op": "np_reduce", "f": f, "obj": k, "axis": ax, "out": k + 1} for k in range(nd - 1)])
+        for f in ("negative", "square", "conj", "positive"):
+            a = new_op(rng, 0, ndim=2, hist=rng.choice([0, 3]), cplx=False, kinds=["asc"] * 4)
+            out.append([a] + [{"op": "np_unary", "f": f, "obj": k, "out": k + 1} for k in range(3)])
+        a = new_op(rng, 0, ndim=2, hist=1, cplx=False, kinds=["asc"] * 4)
+        out.append([a] + [{"op": "np_scalar", "f": "multiply", "obj": k, "scalar": "2", "out": k + 1} for k in range(3)])
+    for d_steps in (("left_shift", {"n": 1}), ("normalize", {"dim": None}), ("cumulative_integrate", {})):
+        a = new_op(rng, 0, ndim=2, hist=rng.choice([0, 2]), cplx=False, kinds=["asc"] * 4)
+        kw = dict(d_steps[1])
+        if "dim" not in kw:
+            kw["dim"] = a["dims"][0]
+        out.append([a] + [dict({"op": "proc", "f": d_steps[0], "obj": k, "out": k + 1}, kw=dict(kw)) for k in range(3)])
     return out
 
 
